@@ -22,8 +22,12 @@ CHECKS = {
               "quick run (exhaustive <=4-digit Decimals x exponent -8..8 in the thorough tier)."),
         design="DESIGN.md §5 C06",
         technique="Coq proof over a Gallina model + in-Coq differential correspondence with the implementation",
-        note="Modelled, not verified: CPython Decimal/float/datetime/re themselves; the date/time regexes are "
-             "modelled by a hand-written scanner validated against re on every run.",
+        note="Modelled, not verified: CPython Decimal/float/datetime themselves. The three date/time regular "
+             "expressions are TRANSLATED from /repo's compiled patterns on every run (CPython's own regex parse tree "
+             "-> a Coq regex AST, fail-closed) and the hand-written scanner is proved equal to them for all strings "
+             "(regex_matcher_correct, scanner_is_regex_date/_time/_datetime: the captures are forced, so the "
+             "backtracking order cannot matter); the Coq regex semantics is cross-checked against CPython's engine on "
+             "every generated string.",
     ),
 }
 
